@@ -265,12 +265,24 @@ pub fn key_of_spelling(bytes: &[u8]) -> Option<u8> {
 /// Content of a write (a consumer's command or a spontaneous change of the remote lane).
 #[derive(Clone, Debug, PartialEq, Eq, Serialize, Deserialize)]
 pub enum W {
-    /// value lane: body is the decimal id (unique per case)
-    Val { id: u32 },
+    /// value lane: body is the decimal id (unique per case); `pad` > 0 makes it a long body
+    /// (`v<id>xxx…`) so that the runtime's `FramedWrite` towards the socket passes its 8 KiB
+    /// back-pressure boundary and a *write* (not only a flush) can be pending
+    Val {
+        id: u32,
+        #[serde(default)]
+        pad: u16,
+    },
     /// value lane: the empty body (Recon for extant / None / unit)
     Empty,
-    /// map lane: update, key = KEYS[k].0 as spelled, value = decimal id (unique per case)
-    Upd { k: u8, id: u32 },
+    /// map lane: update, key = KEYS[k].0 as spelled, value = decimal id (unique per case) or the
+    /// long form when `pad` > 0
+    Upd {
+        k: u8,
+        id: u32,
+        #[serde(default)]
+        pad: u16,
+    },
     Rem { k: u8 },
     Clr,
 }
@@ -286,11 +298,19 @@ pub enum Ev {
     Bad(Vec<u8>),
 }
 
+fn short(b: &[u8]) -> String {
+    if b.len() > 24 {
+        format!("{}…[{} bytes]", String::from_utf8_lossy(&b[..12]), b.len())
+    } else {
+        String::from_utf8_lossy(b).to_string()
+    }
+}
+
 impl Ev {
     pub fn show(&self) -> String {
         match self {
-            Ev::Val(b) => format!("{:?}", String::from_utf8_lossy(b)),
-            Ev::Upd(k, v) => format!("upd({},{})", canon_spelling(*k), String::from_utf8_lossy(v)),
+            Ev::Val(b) => format!("{:?}", short(b)),
+            Ev::Upd(k, v) => format!("upd({},{})", canon_spelling(*k), short(v)),
             Ev::Rem(k) => format!("rem({})", canon_spelling(*k)),
             Ev::Clr => "clear".to_string(),
             Ev::Bad(b) => format!("BAD({:?})", String::from_utf8_lossy(b)),
@@ -312,12 +332,27 @@ impl Ev {
     }
 }
 
+/// Body of a write: the decimal id, or `v<id>` followed by `pad` filler characters.
+pub fn body_of(id: u32, pad: u16) -> Vec<u8> {
+    if pad == 0 {
+        id.to_string().into_bytes()
+    } else {
+        let mut b = format!("v{}", id).into_bytes();
+        b.resize(b.len() + pad as usize, b'x');
+        b
+    }
+}
+
 impl W {
+    pub fn is_big(&self) -> bool {
+        matches!(self, W::Val { pad, .. } | W::Upd { pad, .. } if *pad > 0)
+    }
+
     pub fn ev(&self) -> Ev {
         match self {
-            W::Val { id } => Ev::Val(id.to_string().into_bytes()),
+            W::Val { id, pad } => Ev::Val(body_of(*id, *pad)),
             W::Empty => Ev::Val(vec![]),
-            W::Upd { k, id } => Ev::Upd(KEYS[*k as usize % KEYS.len()].1, id.to_string().into_bytes()),
+            W::Upd { k, id, pad } => Ev::Upd(KEYS[*k as usize % KEYS.len()].1, body_of(*id, *pad)),
             W::Rem { k } => Ev::Rem(KEYS[*k as usize % KEYS.len()].1),
             W::Clr => Ev::Clr,
         }
@@ -337,10 +372,10 @@ impl W {
                 dst.put_u64(body.len() as u64);
                 dst.put_slice(&body);
             }
-            W::Upd { id, .. } => {
+            W::Upd { id, pad, .. } => {
                 let op: MapOperation<&[u8], Vec<u8>> = MapOperation::Update {
                     key: self.spelled_key().as_bytes(),
-                    value: id.to_string().into_bytes(),
+                    value: body_of(*id, *pad),
                 };
                 RawMapOperationEncoder.encode(op, dst).expect("encode");
             }
@@ -403,15 +438,38 @@ impl State {
     pub fn show(&self) -> String {
         match self {
             State::Val(None) => "<none>".into(),
-            State::Val(Some(b)) => format!("{:?}", String::from_utf8_lossy(b)),
+            State::Val(Some(b)) => format!("{:?}", short(b)),
             State::Map(m) => {
                 let items: Vec<String> = m
                     .iter()
-                    .map(|(k, v)| format!("{}:{}", canon_spelling(*k), String::from_utf8_lossy(v)))
+                    .map(|(k, v)| format!("{}:{}", canon_spelling(*k), short(v)))
                     .collect();
                 format!("{{{}}}", items.join(","))
             }
         }
+    }
+}
+
+/// Content of a command envelope body as the lane understands it (map: the Recon the runtime's
+/// `MapOperationReconEncoder` produces).
+pub fn decode_command(kind: Kind, body: Bytes) -> Ev {
+    match kind {
+        Kind::Value => Ev::Val(body.to_vec()),
+        Kind::Map => match extract_header(&body) {
+            Ok(MapMessage::Update { key, value }) => match key_of_spelling(&key) {
+                Some(k) => match std::str::from_utf8(&value) {
+                    Ok(v) => Ev::Upd(k, v.trim().as_bytes().to_vec()),
+                    Err(_) => Ev::Bad(body.to_vec()),
+                },
+                None => Ev::Bad(body.to_vec()),
+            },
+            Ok(MapMessage::Remove { key }) => match key_of_spelling(&key) {
+                Some(k) => Ev::Rem(k),
+                None => Ev::Bad(body.to_vec()),
+            },
+            Ok(MapMessage::Clear) => Ev::Clr,
+            _ => Ev::Bad(body.to_vec()),
+        },
     }
 }
 
@@ -566,27 +624,7 @@ impl RemoteLane {
     }
 
     fn decode_command(&self, body: Bytes) -> Ev {
-        match self.kind {
-            Kind::Value => Ev::Val(body.to_vec()),
-            Kind::Map => match extract_header(&body) {
-                Ok(MapMessage::Update { key, value }) => match key_of_spelling(&key) {
-                    Some(k) => {
-                        let v = std::str::from_utf8(&value).map(|s| s.trim().as_bytes().to_vec());
-                        match v {
-                            Ok(v) => Ev::Upd(k, v),
-                            Err(_) => Ev::Bad(body.to_vec()),
-                        }
-                    }
-                    None => Ev::Bad(body.to_vec()),
-                },
-                Ok(MapMessage::Remove { key }) => match key_of_spelling(&key) {
-                    Some(k) => Ev::Rem(k),
-                    None => Ev::Bad(body.to_vec()),
-                },
-                Ok(MapMessage::Clear) => Ev::Clr,
-                _ => Ev::Bad(body.to_vec()),
-            },
-        }
+        decode_command(self.kind, body)
     }
 
     /// Read at most n bytes of what the runtime wrote; answer every complete frame at once.
@@ -623,6 +661,33 @@ impl RemoteLane {
             }
         }
         got
+    }
+
+    /// Read whole frames: at most `k` further frames, never a byte of the one after (the bytes
+    /// needed are computed from the frame header), stopping early when nothing more is available.
+    pub fn read_frames(&mut self, k: usize) -> usize {
+        const HEADER: usize = 32;
+        let mut total = 0;
+        let target = self.received.len() + k;
+        while self.received.len() < target && self.decode_error.is_none() {
+            let have = self.input.inbox.len();
+            let need = if have < HEADER {
+                HEADER - have
+            } else {
+                let h = &self.input.inbox[..HEADER];
+                let node_len = u32::from_be_bytes(h[16..20].try_into().unwrap()) as usize;
+                let lane_len = u32::from_be_bytes(h[20..24].try_into().unwrap()) as usize;
+                let body_len = (u64::from_be_bytes(h[24..32].try_into().unwrap()) & !(0b111 << 61)) as usize;
+                (HEADER + node_len + lane_len + body_len).saturating_sub(have)
+            };
+            // `read` decodes every complete frame, so an incomplete one is all the inbox can hold
+            let got = self.read(need.max(1));
+            total += got;
+            if got == 0 {
+                break;
+            }
+        }
+        total
     }
 
     pub fn pump(&mut self, n: usize) -> usize {
